@@ -78,6 +78,10 @@ class Check:
         self.model_runs = []
         self.known = [k for k in load_known() if k.get("property") == pid]
         self.quick = self.tier == "quick"
+        if not self.args.replay:
+            # replay files of an earlier run must not be mistaken for this run's
+            import shutil
+            shutil.rmtree(os.path.join(EVID, "replay", pid), ignore_errors=True)
 
     # ---- TLC model runs ---------------------------------------------------
     def model(self, module, cfg=None, **kw):
